@@ -11,7 +11,7 @@ import (
 
 func init() {
 	register("C19", propMeta{
-		Explanation: "E-TAINT + E-LOCK + E-CONST. O-1: in printMetrics every uint event counter of Metrics reaches the logger only as binCount(field); binCount has the ceil-to-8 shape (same constant 8 in the quotient and the product, Ceil not Floor/Round, or the integer form ((x+7)/8)*8); the sets 'counters incremented' = 'counters printed' = 'counters reset' agree, and the per-country maps created in NewMetrics are the ones reset. O-2: the rounded Prometheus counter's (total, value) pair is read and written only under its own mutex, inside one critical section per Inc, never through sync/atomic mixed with plain access, and value grows by the constant 8 only on the total > value edge. O-3: UpdateCountryStats/RecordIPAddress run with Metrics.lock in their entry lockset and every per-country count change lies behind the 'address not seen yet' edges. O-4: in ipsetsink the raw address reaches the sketch only through the keyed HMAC. O-5: the journal window predicate compares RecordingStart with from and RecordingEnd with to. Each is a necessary condition: e.g. a counter printed raw publishes a non-multiple of 8; a non-atomic pair publishes a value below the truth for some schedule. Added after the second seeding round: O-1d the matched figures (clientProxyMatchCount, ClientPollTotal{status=matched}) are incremented only on the edge on which the proxy's answer was received; O-5b every journal line is decoded into a record and a sketch created in that iteration; O-5c the journal reader uses no length-limited line scanner, or returns its Err() (D19).",
+		Explanation: "E-TAINT + E-LOCK + E-CONST. O-1: in printMetrics every uint event counter of Metrics reaches the logger only as binCount(field); binCount has the ceil-to-8 shape (same constant 8 in the quotient and the product, Ceil not Floor/Round, or the integer form ((x+7)/8)*8); the sets 'counters incremented' = 'counters printed' = 'counters reset' agree, and the per-country maps created in NewMetrics are the ones reset. O-2: the rounded Prometheus counter's (total, value) pair is read and written only under its own mutex, inside one critical section per Inc, never through sync/atomic mixed with plain access, and value grows by the constant 8 only on the total > value edge. O-3: UpdateCountryStats/RecordIPAddress run with Metrics.lock in their entry lockset and every per-country count change lies behind the 'address not seen yet' edges. O-4: in ipsetsink the raw address reaches the sketch only through the keyed HMAC. O-5: the journal window predicate compares RecordingStart with from and RecordingEnd with to. Each is a necessary condition: e.g. a counter printed raw publishes a non-multiple of 8; a non-atomic pair publishes a value below the truth for some schedule. Added after the second seeding round: O-1d the matched figures (clientProxyMatchCount, ClientPollTotal{status=matched}) are incremented only on the edge on which the proxy's answer was received; O-5b every journal line is decoded into a record and a sketch created in that iteration; O-5c the journal reader uses no length-limited line scanner, or returns its Err() (D19). Added after the third seeding round: O-1e the guarded-by rows of Metrics and CountryStats are evaluated here too (an increment outside metrics.lock can be lost, publishing a count below the truth); O-4b RecordIPAddress is called from ProxyPolls itself on every path that updates the country statistics, and WriteIPSetToDisk resets the sketch and advances lastWriteTime on every way out after the chunk was written; O-4 no longer names maskIPAddress: the value added to the sketch must derive from hmac.New(_, ipMaskingKey).Sum.",
 		NotDecided:  "floating-point exactness of binCount beyond 2^53, HyperLogLog accuracy, which events should be counted, the arithmetic correctness of rounding for all histories (only its shape is decided).",
 		Assumptions: []string{"math.Ceil, crypto/hmac and hyperloglog behave as documented", "lock identity is (type, field)"},
 	}, runC19)
@@ -222,6 +222,20 @@ func runC19(c *Ctx) {
 
 	// ---- O-1d: a match is counted when the proxy's answer arrived ----
 	c.checkMatchCountedOnAnswer()
+	// ---- O-1e: every counter is incremented under the metrics lock (lost updates publish a count below the truth) ----
+	{
+		var rows []guardRow
+		for _, r := range guardTable {
+			if r.Rel == "broker" && (r.Type == "Metrics" || r.Type == "CountryStats") {
+				rows = append(rows, r)
+			}
+		}
+		c.prefix = "O-1e/C20:"
+		c.checkGuardRows("O-1 guarded-by table", rows, p.FnsIn("broker"))
+		c.prefix = ""
+	}
+	// ---- O-4b: the journal sees every poll's address; a chunk holds exactly its interval ----
+	c.checkJournalFeeding()
 	// ---- O-5: window predicate orientation ----
 	c.checkWindowPredicate()
 	// ---- O-5c: the journal is read to its end or the reader says so ----
@@ -387,56 +401,79 @@ func (c *Ctx) checkIPSetSink() {
 	p := c.P
 	rule := "O-4 only keyed hashes reach the sketch"
 	add := p.Fn("common/ipsetsink", "(*IPSetSink).AddIPToSet")
-	mask := p.Fn("common/ipsetsink", "(*IPSetSink).maskIPAddress")
-	if add == nil || mask == nil {
-		c.undecided(rule, "ipsetsink.AddIPToSet/maskIPAddress", "-", "anchor does not resolve")
+	keyF := p.Field("common/ipsetsink", "IPSetSink", "ipMaskingKey")
+	if add == nil || keyF == nil || len(add.Params) < 2 {
+		c.undecided(rule, "ipsetsink.AddIPToSet/ipMaskingKey", "-", "anchor does not resolve")
 		return
 	}
 	c.analysedFn(p.FnName(add))
-	c.analysedFn(p.FnName(mask))
+	// a MAC value: hmac.New(_, key).Sum(_) with the key taken from IPSetSink.ipMaskingKey
+	// (directly or through a parameter of a helper)
+	isMAC := func(v ssa.Value) bool {
+		cc, _, ok := callResult(v)
+		if !ok || calleeName(cc) != "(hash.Hash).Sum" {
+			return false
+		}
+		hm, _, ok := callResult(cc.Common().Value)
+		if !ok || !isCallTo(hm, "crypto/hmac.New") {
+			return false
+		}
+		return flows(hm.Common().Args[1], func(v ssa.Value) bool { return isFieldLoadOf(v, keyF) })
+	}
+	// the masking function(s): every return is a MAC value (maskIPAddress on the reference tree)
+	maskFns := map[*ssa.Function]bool{}
+	for _, fn := range p.FnsIn("common/ipsetsink") {
+		rets := returnsOf(fn)
+		if len(rets) == 0 || fn.Signature.Results().Len() != 1 {
+			continue
+		}
+		all := true
+		for _, r := range rets {
+			if !isMAC(r.Results[0]) {
+				all = false
+			}
+		}
+		if all {
+			maskFns[fn] = true
+			c.analysedFn(p.FnName(fn))
+		}
+	}
+	masked := func(v ssa.Value) bool {
+		if isMAC(v) {
+			return true
+		}
+		cc, _, ok := callResult(v)
+		return ok && maskFns[staticCallee(cc)]
+	}
 	ip := add.Params[1]
 	n := 0
 	for _, ci := range callsIn(add) {
-		if staticCallee(ci) == mask {
+		if maskFns[staticCallee(ci)] {
 			continue
+		}
+		if cn := calleeName(ci); cn == "(hash.Hash).Write" || cn == "(io.Writer).Write" {
+			// feeding the address to the MAC itself
+			if hm, _, ok := callResult(ci.Common().Value); ok && isCallTo(hm, "crypto/hmac.New") {
+				continue
+			}
 		}
 		// any other call that receives something derived from the raw address
 		for _, a := range callArgs(ci) {
-			raw := flowsAvoiding(a, func(v ssa.Value) bool { return v == ssa.Value(ip) }, func(v ssa.Value) bool {
-				cc, _, ok := callResult(v)
-				return ok && staticCallee(cc) == mask
-			})
+			raw := flowsAvoiding(a, func(v ssa.Value) bool { return v == ssa.Value(ip) }, masked)
 			n++
 			if raw {
-				c.viol(rule, "ipsetsink.AddIPToSet passes the raw address to "+calleeName(ci), p.instrPos(ci), "the unmasked address reaches a sink without passing through maskIPAddress")
+				c.viol(rule, "ipsetsink.AddIPToSet passes the raw address to "+calleeName(ci), p.instrPos(ci), "the unmasked address reaches a sink without passing through the keyed MAC")
 			}
 		}
 	}
-	masked := false
-	for _, ci := range callsIn(add) {
-		if calleeName(ci) == "(*github.com/clarkduvall/hyperloglog.HyperLogLogPlus).Add" {
-			if flows(ci.Common().Args[1], func(v ssa.Value) bool {
-				cc, _, ok := callResult(v)
-				return ok && staticCallee(cc) == mask
-			}) {
-				masked = true
-			}
+	isMasked := false
+	for _, d := range deepCalls(add, 2, "(*github.com/clarkduvall/hyperloglog.HyperLogLogPlus).Add") {
+		ci, ok := d.In.(ssa.CallInstruction)
+		if ok && flows(ci.Common().Args[1], masked) {
+			isMasked = true
 		}
 	}
-	c.check(masked, rule, "ipsetsink.AddIPToSet adds maskIPAddress(address) to the sketch", p.Pos(add.Pos()), fmt.Sprintf("%d call argument(s) examined; none carries the raw address", n), "the value added to the sketch does not derive from maskIPAddress")
-	// maskIPAddress returns an HMAC keyed with ipMaskingKey
-	keyF := p.Field("common/ipsetsink", "IPSetSink", "ipMaskingKey")
-	okMask := false
-	for _, r := range returnsOf(mask) {
-		if cc, _, ok := callResult(r.Results[0]); ok && calleeName(cc) == "(hash.Hash).Sum" {
-			if hm, _, ok := callResult(cc.Call.Value); ok && isCallTo(hm, "crypto/hmac.New") {
-				if flows(hm.Call.Args[1], func(v ssa.Value) bool { return isFieldLoadOf(v, keyF) }) {
-					okMask = true
-				}
-			}
-		}
-	}
-	c.check(okMask, rule, "ipsetsink.maskIPAddress returns hmac.New(_, ipMaskingKey).Sum", p.Pos(mask.Pos()), "keyed HMAC of the address", "maskIPAddress does not return a MAC keyed with ipMaskingKey")
+	c.check(isMasked, rule, "ipsetsink.AddIPToSet adds hmac.New(_, ipMaskingKey).Sum of the address to the sketch", p.Pos(add.Pos()), fmt.Sprintf("%d call argument(s) examined, none carries the raw address; %d masking function(s)", n, len(maskFns)), "the value added to the sketch does not derive from a MAC keyed with ipMaskingKey")
 	// no other state
 	t := p.Type("common/ipsetsink", "IPSetSink")
 	if t != nil {
@@ -608,4 +645,103 @@ func (c *Ctx) checkMatchCountedOnAnswer() {
 			return oks && st == "matched"
 		}, "an increment of ClientPollTotal{status=matched}", "matches are never counted in the rounded counter")
 	}
+}
+
+// checkJournalFeeding: (a) Metrics.RecordIPAddress is called from ProxyPolls itself,
+// for every poll whose address parsed - not from behind the per-period
+// "already seen" returns of UpdateCountryStats, which would feed a chunk only on
+// an address's first poll of the metrics period; (b) WriteIPSetToDisk, once the
+// chunk has been written, resets the sketch and advances lastWriteTime on every
+// way out, so that the next chunk holds exactly the addresses of its own interval.
+func (c *Ctx) checkJournalFeeding() {
+	p := c.P
+	rule := "O-4b the journal is fed per poll and cut per interval"
+	rec := p.Fn("broker", "(*Metrics).RecordIPAddress")
+	pp := p.Fn("broker", "(*IPC).ProxyPolls")
+	ucs := p.Fn("broker", "(*Metrics).UpdateCountryStats")
+	if rec == nil || pp == nil || ucs == nil {
+		c.undecided(rule, "RecordIPAddress/ProxyPolls/UpdateCountryStats", "-", "anchor does not resolve")
+	} else {
+		callers := p.realCallers(rec)
+		okCallers := len(callers) > 0
+		var ucsCall ssa.CallInstruction
+		for _, ci := range callsIn(pp) {
+			if staticCallee(ci) == ucs {
+				ucsCall = ci
+			}
+		}
+		for _, ci := range callers {
+			if !belongsTo(ci.Parent(), pp) {
+				okCallers = false
+				c.viol(rule, p.FnName(ci.Parent())+" calls RecordIPAddress", p.instrPos(ci), "the journal is fed from a place other than ProxyPolls (for example from behind UpdateCountryStats' already-seen returns): an address reaches a chunk only on its first poll of the metrics period and later chunks under-count")
+			}
+		}
+		if okCallers && ucsCall != nil {
+			// wherever the country statistics are updated the journal is fed too (same paths)
+			for _, ci := range callers {
+				if ci.Parent() == pp {
+					same := ci.Block() == ucsCall.Block() || (reachPath(ucsCall.Block(), ci.Block(), nil) != nil && escapesWithoutInstr(ucsCall, ci) == nil)
+					c.check(same, rule, "ProxyPolls feeds the journal on every path that updates the country statistics", p.instrPos(ci), "", "a path updates the per-country statistics without recording the address in the journal")
+				}
+			}
+		}
+	}
+	w := p.Fn("common/ipsetsink/sinkcluster", "(*ClusterWriter).WriteIPSetToDisk")
+	lwF := p.Field("common/ipsetsink/sinkcluster", "ClusterWriter", "lastWriteTime")
+	if w == nil || lwF == nil {
+		c.undecided(rule, "ClusterWriter.WriteIPSetToDisk", "-", "anchor does not resolve")
+		return
+	}
+	var cp *ssa.Call
+	for _, d := range deepCalls(w, 2, "io.Copy") {
+		cp, _ = d.Top.(*ssa.Call)
+		if cp == nil {
+			cp, _ = d.In.(*ssa.Call)
+		}
+	}
+	if cp == nil || cp.Parent() != w {
+		c.okTrivial(rule, "WriteIPSetToDisk writes the chunk with io.Copy", p.Pos(w.Pos()), "write step not in the expected place: obligation not evaluated")
+		return
+	}
+	okE := errNilEdges(w, cp, errResultIndex(cp.Call.Signature()))
+	isReset := func(in ssa.Instruction) bool {
+		ci, ok := in.(ssa.CallInstruction)
+		return ok && strings.HasSuffix(calleeName(ci), "IPSetSink).Reset")
+	}
+	isAdvance := func(in ssa.Instruction) bool {
+		st, ok := in.(*ssa.Store)
+		if !ok {
+			return false
+		}
+		_, f, okf := fieldOfAddr(st.Addr)
+		return okf && f == lwF
+	}
+	for _, what := range []struct {
+		name string
+		pred func(ssa.Instruction) bool
+	}{{"resets the sketch", isReset}, {"advances lastWriteTime", isAdvance}} {
+		good := len(okE) > 0
+		var wp []*ssa.BasicBlock
+		for _, e := range okE {
+			if pth := escapesWithout(e.To(), what.pred); pth != nil {
+				good = false
+				wp = pth
+			}
+		}
+		c.check(good, rule, "after the chunk is written WriteIPSetToDisk "+what.name+" on every way out", p.instrPos(cp), "", "a way out after a successful write skips this step (for example on a Sync error): the next chunk claims the new interval but still carries the previous chunk's addresses, or the same interval is written twice", p.pathString(wp)...)
+	}
+}
+
+// escapesWithoutInstr: from instruction a, is there a path to a return that does not execute b?
+func escapesWithoutInstr(a, b ssa.Instruction) []*ssa.BasicBlock {
+	if a.Block() == b.Block() && instrIndex(a) < instrIndex(b) {
+		return nil
+	}
+	var out []*ssa.BasicBlock
+	for _, s := range a.Block().Succs {
+		if pth := escapesWithout(s, func(in ssa.Instruction) bool { return in == b }); pth != nil {
+			out = pth
+		}
+	}
+	return out
 }
